@@ -2,6 +2,10 @@ SPECIFICATION Spec
 CONSTANTS
   Defect = "none"
   MaxChanges = 3
+  FocusKeys = {"upstream.healthcheck.enabled@", "upstream.healthcheck.timeout@", "upstream.healthcheck.interval@",
+               "cache.type@", "cache.size@", "cache.ttl_override.enabled@", "cache.ttl_override.min@",
+               "check.kv.type@", "check.kv.ttl@", "server_groups[*].profiles_enabled@0",
+               "ratelimit.response_size_estimate@", "backend.timeout@"}
 INVARIANTS Reaches ZeroIsMeaningful GatedByOwnFlag PartitionExact OrderPreserved
 PROPERTY NoCrossTalk
 CHECK_DEADLOCK FALSE
